@@ -723,13 +723,17 @@ func (a *Assembler) AssembleWithContext(netFlow gopacket.Flow, t *layers.TCP, ac
 		}
 	}
 
+	queued := action.queue
 	action = a.handleBytes(bytes, seq, half, t.SYN, t.RST || t.FIN, action, ac)
 	if len(a.ret) > 0 {
 		action.nextSeq = a.sendToConnection(conn, half, ac)
 	}
 	if action.nextSeq != invalidSequence {
 		half.nextSeq = action.nextSeq
-		if t.FIN {
+		// The FIN consumes a sequence number only once it is handed over; a
+		// FIN packet that was queued (a page limit pushed older data out
+		// instead) has not been.
+		if t.FIN && !queued {
 			half.nextSeq = half.nextSeq.Add(1)
 		}
 	}
